@@ -76,6 +76,8 @@ enum FuncKind {
     },
     TaskBlock {
         task_block: Rc<Expr>,
+        capture_types: Vec<SolvedType>,
+        capture_types_concrete: Vec<SolvedType>,
     },
     IntrinsicWrapper(IntrinsicOperation, AstNode),
     ForeignFunctionWrapper {
@@ -443,21 +445,21 @@ impl Translator {
                         }
                         FuncKind::TaskBlock {
                             task_block: e,
-                            // capture_types,
-                            // capture_types_concrete,
+                            capture_types,
+                            capture_types_concrete,
                         } => {
                             let ExprKind::TaskBlock(body) = &*e.kind else { unreachable!() };
 
                             let out_ty = self.statics.solution_of_node(e.node()).unwrap();
                             let func_ty = SolvedType::Function(vec![], out_ty.into());
                             let mono_for_lambda = MonomorphEnv::empty();
-                            // if capture_types.iter().any(|ty| ty.is_overloaded()) {
-                            //     for (overloaded_ty, ty_concrete) in
-                            //         capture_types.iter().zip(capture_types_concrete.iter())
-                            //     {
-                            //         mono_for_lambda.update(overloaded_ty, ty_concrete);
-                            //     }
-                            // }
+                            if capture_types.iter().any(|ty| ty.is_overloaded()) {
+                                for (overloaded_ty, ty_concrete) in
+                                    capture_types.iter().zip(capture_types_concrete.iter())
+                                {
+                                    mono_for_lambda.update(overloaded_ty, ty_concrete);
+                                }
+                            }
                             self.translate_func_body_helper(
                                 st,
                                 mono_for_lambda,
@@ -1136,6 +1138,16 @@ impl Translator {
                 let desc = FuncDesc {
                     kind: FuncKind::TaskBlock {
                         task_block: expr.clone(),
+                        capture_types: captures
+                            .iter()
+                            .cloned()
+                            .map(|capture| self.statics.solution_of_node(capture).unwrap())
+                            .collect(),
+                        capture_types_concrete: captures
+                            .iter()
+                            .cloned()
+                            .map(|capture| self.get_ty(mono, capture).unwrap())
+                            .collect(),
                     },
                     overload_ty: overload_ty.clone(),
                 };
@@ -2691,6 +2703,33 @@ impl Translator {
             std::collections::hash_map::Entry::Vacant(v) => {
                 st.funcs_to_generate.push(desc.clone());
                 let label = match &desc.overload_ty {
+                    // a lambda (or task) whose own type is not generic can still capture variables of
+                    // a generic type: it needs one body (and label) per instantiation of its captures
+                    None if matches!(&desc.kind,
+                        FuncKind::AnonymousFunc { capture_types, .. } | FuncKind::TaskBlock { capture_types, .. }
+                        if capture_types.iter().any(|ty| ty.is_overloaded())) =>
+                    {
+                        let (FuncKind::AnonymousFunc {
+                            capture_types_concrete,
+                            ..
+                        }
+                        | FuncKind::TaskBlock {
+                            capture_types_concrete,
+                            ..
+                        }) = &desc.kind
+                        else {
+                            unreachable!()
+                        };
+                        let mut label_hint = format!("{func_name}__%");
+                        for (i, ty) in capture_types_concrete.iter().enumerate() {
+                            if i != 0 {
+                                label_hint.push(',');
+                            }
+                            label_hint.push_str(&ty.to_string());
+                        }
+                        label_hint.retain(|c| !c.is_whitespace());
+                        make_label(&label_hint)
+                    }
                     None => func_name.clone(),
                     Some(overload_ty) => {
                         let monoty = overload_ty.monotype().unwrap();
